@@ -57,7 +57,9 @@ def parse_output(out, harness_names):
         body = parts[i + 1]
         short = name.split("::")[-1]
         st = None
-        if "VERIFICATION:- SUCCESSFUL" in body:
+        if "CBMC failed" in body or "out of memory" in body or "CBMC timed out" in body:
+            st = None       # tool limit: undecided, never a violation
+        elif "VERIFICATION:- SUCCESSFUL" in body:
             st = "ok"
         elif "VERIFICATION:- FAILED" in body:
             st = "violated"
